@@ -84,6 +84,11 @@ function genOpExpr (rng, ctx, d, label, nested) {
   const P = ctx.P
   const f = ctx.f
   const operand = () => {
+    if (d > 0 && rng.chance(1, 6)) {
+      // a conditional whose branches need different numbers of temporaries
+      const mk = () => rng.chance(1, 2) ? { t: 'probe', site: P.nextSite++ } : genOpExpr(rng, ctx, d - 1, label, true)
+      return { t: 'cond', site: P.nextSite++, cons: mk(), alt: mk() }
+    }
     if (d > 0 && rng.chance(1, 3)) return genOpExpr(rng, ctx, d - 1, label, true)
     if (f.isGen && rng.chance(1, 3)) return { t: 'yield', site: P.nextSite++ }
     if (f.isAsync && rng.chance(1, 3)) return { t: 'await', site: P.nextSite++ }
@@ -128,18 +133,37 @@ function render (P) {
   let labelCounter = 0
   const emit = (s) => lines.push('  '.repeat(ind) + s)
 
-  function leavesOf (e) {
-    switch (e.t) {
-      case 'probe': case 'yield': case 'await': return [e.site]
-      case 'optcall': return [e.site]
-      case 'plus': case 'tpl': return e.ops.flatMap(leavesOf)
-      case 'call': return leavesOf(e.recv).concat(e.args.flatMap(leavesOf))
+  // alternatives: every sequence of leaf probe sites the operand values of `e` can carry (a
+  // conditional operand contributes the leaves of whichever branch runs)
+  function cat (lists) {
+    let acc = [[]]
+    for (const alts of lists) {
+      const next = []
+      for (const a of acc) for (const b of alts) { if (next.length < 64) next.push(a.concat(b)) }
+      acc = next
     }
-    return []
+    return acc
+  }
+  function altsOf (e) {
+    switch (e.t) {
+      case 'probe': case 'yield': case 'await': return [[e.site]]
+      case 'optcall': return [[e.site]]
+      case 'cond': return altsOf(e.cons).concat(altsOf(e.alt))
+      case 'plus': case 'tpl': return cat(e.ops.map(altsOf))
+      case 'call': return cat([altsOf(e.recv)].concat(e.args.map(altsOf)))
+    }
+    return [[]]
+  }
+  function leavesOf (e) { return altsOf(e)[0] }
+  let regN = 0
+  function regAlts (id, hook, alts, label, acc) {
+    alts.forEach((leaves, i) => {
+      ops[i === 0 ? id : id + '~' + i] = { hook, leaves: acc ? ['ACC'].concat(leaves) : leaves, label }
+      regN++
+    })
   }
   function reg (e, hook, leaves, label) {
-    ops[e.id] = { hook, leaves, label }
-    for (const s of leaves) if (s !== 'ACC' && !sites[s]) sites[s] = { op: e.id, label }
+    regAlts(e.id, hook, altsOf(e), label, false)
   }
   // every nested operation is an operation of its own: register bottom-up
   function ex (e, A) {
@@ -147,14 +171,14 @@ function render (P) {
       case 'probe': return `$.p(${A}, ${e.site})`
       case 'yield': return `(yield $.y(${A}, ${e.site}))`
       case 'await': return `(await $.d(${A}, ${e.site}))`
+      case 'cond': return `($.c(${A}, ${e.site}) ? ${ex(e.cons, A)} : ${ex(e.alt, A)})`
       case 'plus': {
         const parts = e.ops.map(o => ex(o, A))
         // nested `+` operands are flattened by the rewriter into one hook call: only the outermost
         // registers, unless the nested one is not a plain `+` (then it is an operation of its own)
         // `a + b + c` is ((a + b) + c): one hook call per prefix of two or more operands
         for (let n = 2; n < e.ops.length; n++) {
-          const pid = e.id + '.' + n
-          ops[pid] = { hook: 'plusOperator', leaves: e.ops.slice(0, n).flatMap(leavesOf), label: e.label }
+          regAlts(e.id + '.' + n, 'plusOperator', cat(e.ops.slice(0, n).map(altsOf)), e.label, false)
         }
         reg(e, 'plusOperator', leavesOf(e), e.label)
         const s = parts.join(' + ')
@@ -167,7 +191,7 @@ function render (P) {
       }
       case 'call': {
         const r = ex(e.recv, A)
-        const needParen = e.recv.t === 'plus' || e.recv.t === 'yield' || e.recv.t === 'await' || e.recvShape === 'paren'
+        const needParen = e.recv.t === 'plus' || e.recv.t === 'yield' || e.recv.t === 'await' || e.recv.t === 'cond' || e.recvShape === 'paren'
         const args = e.args.map(o => ex(o, A))
         reg(e, e.m === 'concat' ? 'concat' : 'trim', leavesOf(e), e.label)
         return `${needParen ? `(${r})` : r}.${e.m}(${args.join(', ')})`
@@ -223,7 +247,7 @@ function render (P) {
         break
       case 'addassign': {
         const rhs = ex(s.e, A)
-        ops[s.id] = { hook: 'plusOperator', leaves: ['ACC'].concat(leavesOf(s.e)), label: s.e.label }
+        regAlts(s.id, 'plusOperator', altsOf(s.e), s.e.label, true)
         if (s.target === 'local') emit(`acc += ${rhs};`); else emit(`box.x += ${rhs};`)
         break
       }
